@@ -17,6 +17,7 @@ GENERIC = re.compile(
 OP_FAMILY = {
     "matmul": (("matmul", "_matmul", "__matmul__", "rmatmul", "__rmatmul__", "_t_matmul"), r"matmul|multipl"),
     "getitem": (("__getitem__", "_getitem", "_get_indices", "_split_slice", "_expand_batch"), r"slic|index"),
+    "diagonal": (("diagonal", "_diagonal"), r"diag"),
     "permute": (("permute", "_permute_batch"), r"permute|transpose"),
     "transpose": (("transpose", "_transpose_nonbatch", "_permute_batch", "t"), r"permute|transpose"),
     "repeat": (("repeat", "_expand_batch", "expand"), r"repeat|expand"),
